@@ -49,7 +49,23 @@ type c01Scenario struct {
 	Shuffle  bool                 `json:"health_reply_order_shuffled"`
 	// Interleave: the goroutines makeConfig starts per service are scheduled statement by statement
 	Interleave bool `json:"makeconfig_interleaved"`
+	// Holds: after its k-th receive watchBackend is busy (receives from neither watcher) for Holds[k mod len] further
+	// semantic events (registry changes applied, Consul replies delivered), or until nothing else can happen. Empty: never busy.
+	Holds []int `json:"consumer_busy_events,omitempty"`
+	// HoldTime: a busy period that outlasts everything else that can happen also lasts that long on the simulated clock
+	HoldTime time.Duration `json:"consumer_busy_time,omitempty"`
+	// FaultTail: with Consul faults, that many further replies may still fail after the last change (the last view of
+	// the registry may be one that lost a lookup: only fabio's own re-reading repairs that)
+	FaultTail int `json:"faulty_replies_after_last_change,omitempty"`
+	// Ticks: simulated time may pass between the changes (steps of 0.5-2 s)
+	Ticks bool `json:"clock_ticks_between_changes,omitempty"`
 }
+
+// c01PromptWindow: how much simulated time a quiet stretch uses before the prompt-convergence rule is evaluated (after
+// the last change; a fifth of it between changes). It covers fabio's retry pauses and poll intervals and is far below
+// the wait limit of a Consul blocking query: a config that was lost on the way is not papered over by the environment
+// delivering the same state once more.
+const c01PromptWindow = 30 * time.Second
 
 const c01Prefix = "urlprefix-"
 
@@ -131,18 +147,35 @@ func c01Gen(g *simcore.Tape, thorough bool) *c01Scenario {
 	if thorough {
 		nops = g.Range(3, 25)
 	}
+	// instances the history has registered so far: most changes aim at one of them (a change that hits nothing still
+	// moves the Consul index)
+	var known [][2]string
+	for _, in := range sc.Initial {
+		known = append(known, [2]string{in.Node, in.ID})
+	}
+	target := func() (string, string) {
+		if len(known) > 0 && g.Chance(70) {
+			k := simcore.Pick(g, known)
+			return k[0], k[1]
+		}
+		return simcore.Pick(g, sc.Nodes).Name, simcore.Pick(g, c01IDs)
+	}
 	for i := 0; i < nops; i++ {
 		op := c01Op{}
-		switch g.Intn(10) {
+		switch g.Intn(11) {
+		case 10:
+			// the registry's view stops changing for a while: the pipeline runs until it is idle
+			op.Kind = "quiet"
 		case 0, 1:
 			op.Kind = "register"
 			op.Inst = c01GenInstance(g, sc.Nodes, g.Chance(85))
+			known = append(known, [2]string{op.Inst.Node, op.Inst.ID})
 		case 2:
 			op.Kind = "deregister"
-			op.Node, op.ID = simcore.Pick(g, sc.Nodes).Name, simcore.Pick(g, c01IDs)
+			op.Node, op.ID = target()
 		case 3, 4, 5:
 			op.Kind = "check"
-			op.Node, op.ID = simcore.Pick(g, sc.Nodes).Name, simcore.Pick(g, c01IDs)
+			op.Node, op.ID = target()
 			op.Check = simcore.Pick(g, []string{"", ":2", ":3"})
 			op.Status = simcore.Pick(g, c01Statuses)
 		case 6:
@@ -151,7 +184,7 @@ func c01Gen(g *simcore.Tape, thorough bool) *c01Scenario {
 			op.Status = simcore.Pick(g, []string{"critical", "passing"})
 		case 7:
 			op.Kind = simcore.Pick(g, []string{"node-maint", "svc-maint", "node-check"})
-			op.Node, op.ID = simcore.Pick(g, sc.Nodes).Name, simcore.Pick(g, c01IDs)
+			op.Node, op.ID = target()
 			op.On = g.Bool()
 			op.Status = simcore.Pick(g, c01Statuses)
 		case 8:
@@ -167,6 +200,17 @@ func c01Gen(g *simcore.Tape, thorough bool) *c01Scenario {
 	sc.Faults = g.Chance(35)
 	sc.Shuffle = g.Chance(60)
 	sc.Interleave = g.Chance(30)
+	if g.Chance(60) {
+		n := g.Range(1, 4)
+		for i := 0; i < n; i++ {
+			sc.Holds = append(sc.Holds, simcore.Pick(g, []int{0, 4, 8, 12, 20, 1000}))
+		}
+		sc.HoldTime = simcore.Pick(g, []time.Duration{0, 0, 500 * time.Millisecond, 3 * time.Second})
+	}
+	sc.Ticks = g.Chance(40)
+	if sc.Faults {
+		sc.FaultTail = g.Range(0, 6)
+	}
 	return sc
 }
 
@@ -441,97 +485,130 @@ func runC01(r *simcore.Run) {
 	}
 	e.sc.FaultsEnabled = sc.Faults
 	e.sc.ShuffleHealth = sc.Shuffle
+	if len(sc.Holds) > 0 {
+		nh := 0
+		e.Hold = func() int { nh++; return sc.Holds[(nh-1)%len(sc.Holds)] }
+		e.HoldTime = sc.HoldTime
+	}
+	next := 0
+	e.Progress = func() int { return next + len(e.sc.Log) }
 	e.start()
 	if sc.Interleave {
 		e.d.Sim.Activate("consul:*ServiceMonitor.makeConfig", "consul:*ServiceMonitor.serviceConfig")
 	}
 
-	next := 0
+	quietNow, paused := false, false
 	e.d.AddSource(func() []simcore.Event {
-		if next >= len(sc.Ops) {
+		if next >= len(sc.Ops) || paused {
 			return nil
 		}
-		return []simcore.Event{{Key: "op", Weight: 2, Fire: func() {
+		ev := []simcore.Event{{Key: "op", Weight: 2, Fire: func() {
 			op := sc.Ops[next]
 			next++
 			r.Tracef("op %d %s node=%s id=%s status=%s on=%v key=%s", next, op.Kind, op.Node, op.ID, op.Status, op.On, op.Key)
+			if op.Kind == "quiet" {
+				quietNow = true
+				return
+			}
 			c01Apply(e.sc, op)
 		}}}
+		if sc.Ticks && len(e.d.Sim.Enabled()) == 0 { // never while a task stands at a statement
+			ev = append(ev, simcore.Event{Key: "zclock", Weight: 1, Fire: func() {
+				dt := simcore.Pick(r.Sched, []time.Duration{500 * time.Millisecond, time.Second, 2 * time.Second})
+				e.d.Advance(dt)
+			}})
+		}
+		return ev
 	})
 	// drive until every op has been applied (replies, relays and ops interleave freely)
 	for steps := 0; next < len(sc.Ops) && steps < 20000; steps++ {
 		if !e.d.Step() {
+			if e.releaseHold(true) {
+				continue
+			}
 			if !e.d.IdleAdvance(48 * time.Hour) {
 				break
 			}
 		}
+		if quietNow {
+			// the registry's view stops changing for a while (every prefix of a history is a history)
+			quietNow = false
+			faults := e.sc.FaultsEnabled
+			e.sc.FaultsEnabled = false
+			c01SettlePrompt(e, 20000, c01PromptWindow/5, &paused)
+			c01Prompt(e, sc, "between changes")
+			e.sc.FaultsEnabled = faults
+		}
 	}
-	// faults stop; the registry's view stops changing
-	e.sc.Mutate("health", func() { e.sc.Down = false })
+	// the registry's view stops changing; a few more replies may fail
+	if sc.FaultTail > 0 {
+		paused = true
+		for steps, stop := 0, len(e.sc.Log)+sc.FaultTail; len(e.sc.Log) < stop && steps < 5000; steps++ {
+			if !e.d.Step() && !e.releaseHold(true) {
+				break
+			}
+		}
+		paused = false
+	}
+	// faults stop
+	if e.sc.Down {
+		// the agent comes back (this moves the health index; without it the index stays where the history left it, so
+		// that a view fabio lost to a fault is repaired by nothing but its own re-reading)
+		e.sc.Mutate("health", func() { e.sc.Down = false })
+	}
 	e.sc.FaultsEnabled = false
+	c01SettlePrompt(e, 30000, c01PromptWindow, &paused)
+	c01Prompt(e, sc, "after the last change")
 	quiet := 2*(5*time.Minute+20*time.Second) + 30*time.Second
 	e.settle(60000, quiet)
 	e.observe()
 	r.Nontrivial()
 
-	// S1: every emitted service config denotes exactly the commands the model derives from the replies of its round
-	type round struct {
-		health   *simconsul.Served
-		catalogs map[string][]*api.CatalogService
+	// S1: every emitted service config denotes exactly the commands the model derives from the replies of one round,
+	// and the rounds the configs stand for never go back.
+	rounds := c01Rounds(e.sc.Log)
+	// A watcher may hand over one config per health reply (as fabio does), withhold a config that denotes the same
+	// commands as the one it handed over last, or skip a view altogether when a newer one is handed over instead
+	// (nothing the statement forbids: no table is ever built from a view older than one already handed over). So the
+	// emitted configs are aligned with the rounds in order: every config must denote the commands of a round that is
+	// not older than the round of its predecessor. A view that is never handed over at all is judged by the
+	// convergence rules (prompt and L1).
+	var texts []string
+	for _, rd := range rounds {
+		texts = append(texts, strings.Join(c01RoundModel(rd, sc), "\n"))
 	}
-	var rounds []round
-	for _, sv := range e.sc.Log {
-		switch sv.Endpoint {
-		case "health":
-			if sv.Err == "" {
-				rounds = append(rounds, round{health: sv, catalogs: map[string][]*api.CatalogService{}})
-			}
-		case "catalog":
-			if len(rounds) > 0 && sv.Err == "" {
-				rounds[len(rounds)-1].catalogs[sv.Arg] = sv.Catalog
-			}
-		}
-	}
-	// The model text of every round, in order. A watcher may hand over one config per health reply (as fabio does) or
-	// withhold a config that denotes the same commands as the one it handed over last (nothing for the table to learn):
-	// the emitted configs are aligned with the rounds in order. A round whose commands differ from the last emitted
-	// config must be followed by a config with exactly those commands before any other config: otherwise a table
-	// installed later would be built from a view older than one already observed. Rounds after the last emitted config
-	// are judged by L1 (the quiescent table).
-	model := func(rd round) []string {
-		// only checks of services that advertise a routing tag count (and node / maintenance checks)
-		var view []*api.HealthCheck
-		for _, c := range rd.health.Health {
-			if c.ServiceID == "" || c01HasPrefixTag(c.ServiceTags) {
-				view = append(view, c)
-			}
-		}
-		return c01Commands(c01Eligible(view, sc.Status, sc.Strict), rd.catalogs)
-	}
-	j, last, haveLast, s1failed := 0, "", false, false
-	for k := 0; k < len(rounds) && j < len(e.relay.SvcSeen); k++ {
-		rd := rounds[k]
-		want := strings.Join(model(rd), "\n")
-		got := e.relay.SvcSeen[j]
+	k, s1failed := 0, false
+	for j, got := range e.relay.SvcSeen {
 		gotCmds, err := h1ParseCmds(got)
 		if err != nil {
 			r.Fail("pipeline", "generated-config-rejected", "service config #%d is rejected by fabio's own parser: %v\n%s", j+1, err, got)
-			j, s1failed = j+1, true
+			s1failed = true
 			continue
 		}
-		if strings.Join(gotCmds, "\n") == want {
-			j, last, haveLast = j+1, want, true
-			continue
+		gotText := strings.Join(gotCmds, "\n")
+		found := -1
+		for x := k; x < len(rounds); x++ {
+			if texts[x] == gotText {
+				found = x
+				break
+			}
 		}
-		if haveLast && want == last {
-			r.Probe("config_withheld_unchanged")
-			continue // nothing new in this round: the watcher may keep quiet
+		switch {
+		case found >= 0:
+			if found > k {
+				r.Probe("rounds_without_config")
+			}
+			k = found + 1
+		case k >= len(rounds):
+			if !s1failed {
+				r.Fail("pipeline", "config-without-health-reply", "service config #%d was emitted but the %d health replies served are all accounted for", j+1, len(rounds))
+			}
+			s1failed = true
+		default:
+			rd := rounds[k]
+			r.Fail("pipeline", "config-differs-from-model", "service config #%d denotes the commands of no health reply from #%d (idx %d) on; compared with that one:\n got: %s\nwant: %s", j+1, rd.health.Seq, rd.health.Index, strings.Join(gotCmds, " | "), strings.ReplaceAll(texts[k], "\n", " | "))
+			s1failed = true
 		}
-		r.Fail("pipeline", "config-differs-from-model", "service config #%d (health reply #%d, idx %d):\n got: %s\nwant: %s", j+1, rd.health.Seq, rd.health.Index, strings.Join(gotCmds, " | "), strings.ReplaceAll(want, "\n", " | "))
-		j, s1failed = j+1, true
-	}
-	if j < len(e.relay.SvcSeen) && !s1failed {
-		r.Fail("pipeline", "config-without-health-reply", "service config #%d was emitted but the %d health replies served are all accounted for", j+1, len(rounds))
 	}
 
 	// S2: every installed table is NewTable(latest service config + "\n" + latest manual config)
@@ -555,38 +632,11 @@ func runC01(r *simcore.Run) {
 
 	// L1: after the quiet period the active table is the model's table of the final registry
 	if !e.wb.Done() {
-		nodes, insts, kv := e.sc.Snapshot()
-		_ = nodes
-		// final health view and catalogs straight from the registry
-		final := simconsul.New(nil)
-		for i := range nodes {
-			final.Nodes = append(final.Nodes, &nodes[i])
-		}
-		for i := range insts {
-			final.Instances = append(final.Instances, &insts[i])
-		}
-		hv, cats := final.Views()
-		var view []*api.HealthCheck
-		for _, c := range hv {
-			if c.ServiceID == "" || c01HasPrefixTag(c.ServiceTags) {
-				view = append(view, c)
-			}
-		}
-		wantCmds := c01Commands(c01Eligible(view, sc.Status, sc.Strict), cats)
-		var man []string
-		for _, e := range kv {
-			if strings.HasPrefix(e.Key, "fabio/config") {
-				man = append(man, strings.TrimSpace(e.Value))
-			}
-		}
-		text := c01Render(wantCmds, view, cats, sc) + "\n" + strings.Join(man, "\n\n")
-		wantTable, err := route.NewTable(bytes.NewBufferString(text))
-		if err != nil {
-			r.Trouble("model text does not parse: %v\n%s", err, text)
+		want, _, _, ok := c01Want(e, sc)
+		if !ok {
 			return
 		}
 		got := c01TableSet(route.GetTable())
-		want := c01TableSet(wantTable)
 		if strings.Join(got, "\n") != strings.Join(want, "\n") {
 			r.Fail("convergence", "final-table-differs", "after %s without changes the active table is not the table of the registry:\n got: %s\nwant: %s", quiet, strings.Join(got, " | "), strings.Join(want, " | "))
 		}
@@ -594,6 +644,147 @@ func runC01(r *simcore.Run) {
 	}
 	r.ProbeN("installs", len(e.Inst))
 	r.ProbeN("service_configs", len(e.relay.SvcSeen))
+}
+
+type c01Round struct {
+	health   *simconsul.Served
+	catalogs map[string][]*api.CatalogService
+}
+
+// c01Rounds groups the replies Consul served into rounds: a health reply and the catalog replies that followed it.
+func c01Rounds(log []*simconsul.Served) []c01Round {
+	var rounds []c01Round
+	for _, sv := range log {
+		switch sv.Endpoint {
+		case "health":
+			if sv.Err == "" {
+				rounds = append(rounds, c01Round{health: sv, catalogs: map[string][]*api.CatalogService{}})
+			}
+		case "catalog":
+			if len(rounds) > 0 && sv.Err == "" {
+				rounds[len(rounds)-1].catalogs[sv.Arg] = sv.Catalog
+			}
+		}
+	}
+	return rounds
+}
+
+// c01RoundModel: the commands that follow from what one round was served (a failed catalog fetch contributes nothing).
+func c01RoundModel(rd c01Round, sc *c01Scenario) []string {
+	// only checks of services that advertise a routing tag count (and node / maintenance checks)
+	var view []*api.HealthCheck
+	for _, c := range rd.health.Health {
+		if c.ServiceID == "" || c01HasPrefixTag(c.ServiceTags) {
+			view = append(view, c)
+		}
+	}
+	return c01Commands(c01Eligible(view, sc.Status, sc.Strict), rd.catalogs)
+}
+
+// c01Want: the table of the registry as it stands (as a target set), the service commands and the KV entries behind it.
+func c01Want(e *h1Env, sc *c01Scenario) (table []string, cmds []string, man []string, ok bool) {
+	nodes, insts, kv := e.sc.Snapshot()
+	// health view and catalogs straight from the registry
+	final := simconsul.New(nil)
+	for i := range nodes {
+		final.Nodes = append(final.Nodes, &nodes[i])
+	}
+	for i := range insts {
+		final.Instances = append(final.Instances, &insts[i])
+	}
+	hv, cats := final.Views()
+	var view []*api.HealthCheck
+	for _, c := range hv {
+		if c.ServiceID == "" || c01HasPrefixTag(c.ServiceTags) {
+			view = append(view, c)
+		}
+	}
+	cmds = c01Commands(c01Eligible(view, sc.Status, sc.Strict), cats)
+	for _, e := range kv {
+		if strings.HasPrefix(e.Key, "fabio/config") {
+			man = append(man, strings.TrimSpace(e.Value))
+		}
+	}
+	text := c01Render(cmds, view, cats, sc) + "\n" + strings.Join(man, "\n\n")
+	wantTable, err := route.NewTable(bytes.NewBufferString(text))
+	if err != nil {
+		e.r.Trouble("model text does not parse: %v\n%s", err, text)
+		return nil, nil, nil, false
+	}
+	return c01TableSet(wantTable), cmds, man, true
+}
+
+// c01SettlePrompt lets the pipeline run until it is idle (no registry change is applied meanwhile) and a stretch of
+// window has passed: retry pauses and poll intervals end, but no blocking query is carried to its wait limit
+// on purpose (one whose limit falls into the window returns, as in life).
+func c01SettlePrompt(e *h1Env, maxSteps int, window time.Duration, paused *bool) {
+	*paused = true // no registry change is offered meanwhile
+	defer func() { *paused = false }()
+	start, step := time.Now(), time.Millisecond
+	for i := 0; i < maxSteps; i++ {
+		if e.d.Step() {
+			step = time.Millisecond
+			continue
+		}
+		rem := window - time.Since(start)
+		if e.releaseHold(rem > 0) {
+			continue
+		}
+		if rem <= 0 {
+			return
+		}
+		if step > rem {
+			step = rem
+		}
+		e.d.Advance(step)
+		step *= 2
+	}
+	e.r.Trouble("pipeline did not become idle within %d steps", maxSteps)
+}
+
+// c01Prompt - prompt convergence: when the pipeline is idle and the last view Consul served to each watcher (the last
+// health reply with the catalog replies of its round; the last KV reply) denotes the registry as it stands, the active
+// table is the table of the registry. Nothing is in flight then, so a difference means that an update was lost or
+// overtaken between a watcher and the table. Where the last round lost a lookup to a fault the rule is silent (fabio
+// repairs that when the blocking query reaches its wait limit: L1).
+func c01Prompt(e *h1Env, sc *c01Scenario, when string) {
+	e.observe()
+	if e.wb.Done() {
+		return
+	}
+	want, cmds, man, ok := c01Want(e, sc)
+	if !ok {
+		return
+	}
+	rounds := c01Rounds(e.sc.Log)
+	if len(rounds) == 0 || strings.Join(c01RoundModel(rounds[len(rounds)-1], sc), "\n") != strings.Join(cmds, "\n") {
+		e.r.Probe("prompt_rule_silent_service_view")
+		return
+	}
+	var lastKV *simconsul.Served
+	for _, sv := range e.sc.Log {
+		if sv.Endpoint == "kv" && sv.Err == "" && strings.HasPrefix(sv.Arg, "fabio/config") {
+			lastKV = sv
+		}
+	}
+	if lastKV == nil {
+		e.r.Probe("prompt_rule_silent_kv_view")
+		return
+	}
+	var seen []string
+	for _, kv := range lastKV.KV {
+		seen = append(seen, strings.TrimSpace(kv.Value))
+	}
+	if strings.Join(seen, "\x00") != strings.Join(man, "\x00") {
+		e.r.Probe("prompt_rule_silent_kv_view")
+		return
+	}
+	e.r.Probe("prompt_rule_evaluated")
+	got := c01TableSet(route.GetTable())
+	if strings.Join(got, "\n") != strings.Join(want, "\n") {
+		e.r.Fail("convergence", "table-stale-although-final-view-served", "%s: the pipeline is idle and both watchers were served the registry as it stands (health reply #%d, kv reply #%d), yet the active table is not the table of the registry:\n got: %s\nwant: %s",
+			when, rounds[len(rounds)-1].health.Seq, lastKV.Seq, strings.Join(got, " | "), strings.Join(want, " | "))
+	}
 }
 
 // c01Render turns the model's eligible instances into route command text (the model's own rendering).
